@@ -641,6 +641,7 @@ def check_reader(rep, R):
                           want=pshow(want), construct='second-side id %s %s' % (show(lid), cfg), loc=x.loc)
             else:
                 rep.fail('C10.R4', w, 'second-side ranks are recorded per (lecturer, student) %s' % cfg, got='no keyed store', construct='rank dictionary store %s' % cfg)
+    check_token_use(rep, R, cfg)
     # ---- R4: rank_lecturer only under twopl, for every pair ----
     rl = [(e, c) for e, c in iter_effects(R.effs) if e.kind == 'store' and e.target[0] == 'attr' and e.target[2] == 'rank_lecturer']
     if not R.twopl:
@@ -681,6 +682,55 @@ def check_reader(rep, R):
         okv = v[0] == 'idx' and v[2] in (A(pair, 'project_index'), BIN('Sub', A(pair, 'projectID'), C(1)))
         rep.check(okd and okv, 'C10.R6', w, "a pair's lecturer is the lecturer of its own project, for every pair %s" % cfg, got=show(v)[-60:].replace(show(pair), 'pair'),
                   want='project_lecturers[pair.project_index]', construct='pair lecturer %s' % (show(v[2]).replace(show(pair), 'pair') if v[0] == 'idx' else '?'), loc=e.loc)
+
+
+def check_token_use(rep, R, cfg, rule='C10.R3'):
+    """R3: what the tokeniser returns is used position by position: entry k of the element list gets entry k of the rank list
+    (both from the same tokeniser call) - for the pairs of a student line and for the (lecturer, student) ranks"""
+    w = R.f.where
+    st_calls, sec_calls = R.tokeniser_calls()
+    rets = [e.ret for e, _ in st_calls + sec_calls if isinstance(e.ret, tuple) and e.ret and e.ret[0] == 'tuple' and len(e.ret[1]) == 2]
+    if not rets:
+        return
+    def which(t):
+        """t == T0[K] or T1[K] of some tokeniser call -> (call number, 0|1, K)"""
+        if t[0] == 'idx':
+            for n_, r_ in enumerate(rets):
+                for side in (0, 1):
+                    if t[1] == r_[1][side]:
+                        return n_, side, t[2]
+        return None
+    # pairs of a student line
+    objs = {}
+    for e, ctx in R.events():
+        if e.kind == 'store' and e.target[0] == 'attr' and e.target[1][0] == 'obj' and e.target[2] in ('projectID', 'rank_student'):
+            objs.setdefault(e.target[1], {})[e.target[2]] = e
+    for obj, d in objs.items():
+        if set(d) != {'projectID', 'rank_student'}:
+            continue
+        a, b = which(d['projectID'].value), which(d['rank_student'].value)
+        ok = a is not None and b is not None and a[0] == b[0] and a[1] == 0 and b[1] == 1 and a[2] == b[2]
+        rep.check(ok, rule, w, 'a pair gets entry k of the tokenised projects and entry k of the tokenised ranks of its own line %s' % cfg,
+                  got='project %s ; rank %s' % (R.nice(d['projectID'].value)[-70:], R.nice(d['rank_student'].value)[-70:]), want='projects[k], ranks[k] of one tokeniser call',
+                  construct='pair built from %s / %s' % ('projects[k]' if a and a[1] == 0 else 'not the tokenised project', 'ranks[k]' if b and b[1] == 1 else 'not the tokenised rank'),
+                  loc=d['rank_student'].loc)
+    # second-side ranks
+    if R.twopl:
+        for e, ctx in R.events():
+            pairs_kv = []
+            if e.kind == 'acc' and e.op == 'setidx' and e.index is not None and e.index[0] == 'tuple' and len(e.index[1]) == 2:
+                pairs_kv.append((e.index[1][1], e.value))
+            for t in [v for k_, v in e.__dict__.items() if isinstance(v, tuple) and v and isinstance(v[0], str)]:
+                for x in walk(t):
+                    if x[0] == 'dictcomp' and x[2][0] == 'tuple' and len(x[2][1]) == 2:
+                        pairs_kv.append((x[2][1][1], x[3]))
+            for stud, val in pairs_kv[:1]:
+                a, b = which(stud), which(val)
+                ok = a is not None and b is not None and a[0] == b[0] and a[1] == 0 and b[1] == 1 and a[2] == b[2]
+                rep.check(ok, rule, w, 'the rank recorded for (lecturer, student k) is entry k of the tokenised ranks of the same line %s' % cfg,
+                          got='student %s ; rank %s' % (R.nice(stud)[-70:], R.nice(val)[-70:]), want='students[k], ranks[k] of one tokeniser call',
+                          construct='second-side rank from %s' % ('ranks[k]' if b and b[1] == 1 and a and a[2] == b[2] else 'something else than the tokenised rank of that entry'), loc=e.loc)
+                return
 
 
 def all_pairs_loops(fors, model):
